@@ -1164,7 +1164,7 @@ def oracle(case, obs):
 
 
 def lookup_failure_cause(case, obs, lk):
-    """D18: the lookup learnt the SRV (server, port) but no address, and during the lookup its host processed a response in
+    """D22: the lookup learnt the SRV (server, port) but no address, and during the lookup its host processed a response in
     which an address record of that server came *before* the SRV of the service (packet order): `async_update_records` ignores
     the address (server unknown), the SRV branch reloads addresses from the cache, which does not hold them yet, and later
     questions list the address as a known answer"""
